@@ -1,6 +1,7 @@
 import Driver.Util
 import SonicModel.Spec.Tree
 import SonicModel.Spec.Num
+import SonicModel.Impl.DomParse
 namespace Driver
 open Sonic Sonic.Spec
 
@@ -54,7 +55,11 @@ def c03 (args : List String) : String :=
         | some (j, e) =>
           if (lossyMode || utf8FirstInvalid b 0 ≥ e) && (rawMode || !(hasInf b j)) then dumpJson b rawMode j else "R"
         | none => "R"
-      s!"spec={strict} spec.raw={raw} spec.lossy={lossy} spec.pre={pre buf false false} spec.raw.pre={pre buf false true} spec.lossy.pre={pre lb true false} utf8={ar u}"
+      -- the model of the decoding parser (`parse_value` / `parse_array` / `parse_object`), whole input
+      let mdom : String := match Sonic.DomP.document buf with
+        | some j => if u then dumpJson buf false j else "R"
+        | none => "R"
+      s!"spec={strict} spec.raw={raw} spec.lossy={lossy} spec.pre={pre buf false false} spec.raw.pre={pre buf false true} spec.lossy.pre={pre lb true false} utf8={ar u} m.dom={mdom}"
     | none => "bad-hex"
   | _ => "bad-args"
 
